@@ -260,6 +260,49 @@ def refine_case(task):
         return [f"{tag}: raised {type(e).__name__}: {e}"]
 
 
+def loop_case(task):
+    """A user loop over problems with ONE SolverParameters object: the run for (problem, parameters) must give the same
+    trial sequence wherever it stands in the loop - first, after problems of other dimensions, or with new parameters."""
+    from iOpt.solver import Solver
+    from iOpt.solver_parametrs import SolverParameters
+    from mc.common import quiet
+    from mc.env import EnvProblem, box
+    m, dims, env, refine = task["m"], task["dims"], task["env"], task.get("refine", False)
+    mk = lambda: SolverParameters(eps=0.01, r=3.0, itersLimit=task["limit"], evolventDensity=m, refineSolution=refine)
+
+    def one(N, params):
+        lo, up = box("B1", N)
+        p = EnvProblem(N, lo, up, make_env(env, dict(N=N, lower=lo, upper=up)))
+        with quiet():
+            s = Solver(p, params)
+            s.DoGlobalIteration(5)
+            sol = s.Solve()
+        return hexlog(p.log), sol.numberOfGlobalTrials
+
+    shared = mk()
+    tag = f"{env}, evolventDensity={m}, one SolverParameters object for problems of dimensions {dims}"
+    try:
+        first = {}
+        for i, N in enumerate(dims):
+            got = one(N, shared)
+            if N in first and got != first[N]:
+                a, b = first[N][0], got[0]
+                d = next((j for j, (u, v) in enumerate(zip(a, b)) if u != v), min(len(a), len(b)))
+                return [f"{tag}: the run for N={N} at position {i + 1} of the loop differs from the same run earlier in the "
+                        f"loop at trial {d + 1} ({got[1]} vs {first[N][1]} trials)"]
+            first.setdefault(N, got)
+        for N in sorted(first):
+            fresh = one(N, mk())
+            if fresh != first[N]:
+                a, b = first[N][0], fresh[0]
+                d = next((j for j, (u, v) in enumerate(zip(a, b)) if u != v), min(len(a), len(b)))
+                return [f"{tag}: the run for N={N} with a new, equal SolverParameters object differs from the run inside "
+                        f"the loop at trial {d + 1}"]
+    except BaseException as e:
+        return [f"{tag}: raised {type(e).__name__}: {e}"]
+    return []
+
+
 def dump():
     """print the canonical logs (used for the cross-process determinism comparison)"""
     out = {}
@@ -317,6 +360,16 @@ def run(ctx):
         runs += 1
         for m in msgs:
             res.add_violation(dict(driver="refine", **t, message=m, sig={}))
+    # one SolverParameters object serving a loop over problems
+    ptasks = []
+    for m in (3, 10, 12, 16, 20):
+        for dims in ([2, 3, 5, 2], [2, 7, 2], [1, 6, 1, 3, 6], [4, 8, 4], [5, 2, 5]):
+            for env in ("sin", "abs13"):
+                ptasks.append(dict(cfg={}, m=m, dims=dims, env=env, limit=40 if th else 25, refine=(m == 12)))
+    for t, msgs in zip(ptasks, pmap(loop_case, ptasks, chunksize=2)):
+        runs += len(t["dims"])
+        for mm in msgs:
+            res.add_violation(dict(driver="loop", **t, message=mm, sig={}))
     # determinism across processes / hash seeds
     here = {}
     for i, cfg in enumerate(OBJECTIVES):
@@ -354,6 +407,8 @@ def replay(rec):
         return replay_long(rec)
     if rec["driver"] == "refine":
         return refine_case(rec)
+    if rec["driver"] == "loop":
+        return loop_case(rec)
     n = rec["n"]
     canon, states, D = canonical(cfg, n + 3)
     if rec["driver"] == "repeat":
